@@ -109,6 +109,20 @@ CHECKS.update({
     ),
 })
 
+CHECKS.update({
+    "C07": (
+        "Hypothesis-generated histories/iterations with GC disabled: cleared-graph invariant, object census by type, gradient staleness rules, bit-identical repetition",
+        "Generated search over forward/backward sequences (in-place histories incl. failing statements, or functional "
+        "DAGs iterated 2-4 times on the same leaves) with follow-up uses of kept leaves; asserts the cleared-graph "
+        "invariant on everything that was reachable from L, an exact census of live Tensor/Operation instances against "
+        "what the harness still references (cyclic GC disabled), the persistence/staleness rules of .grad, and "
+        "bit-identical gradients across repetitions. Exploration only.",
+        "CPython refcounting; census relative to a per-case baseline; a second backward that is refused with "
+        "InvalidBackprop is accepted (C09).",
+        "DESIGN.md §3 C07",
+    ),
+})
+
 NOT_YET = {
 }
 
